@@ -56,8 +56,12 @@ def resDimsT2 (len x0 : Int) : Nat → Int × Int
   | 0 => (len, x0)
   | n + 1 => resDimsT2 (Gen.J2kT2.splitLengths len (Gen.J2kT2.isEven x0)) (Gen.J2kT2.nextCoord x0) n
 
-/-- encoder.go getSubbandsForResolution: low-pass extent after `n` splits, from the tile width only -/
-def encLowLen (len : Int) (n : Nat) : Int := ceilDivPow2 len n
+/-- encoder.go getSubbandsForResolution (since fix 104b234): the sub-band extents come from
+    `resolutionDimsWithOrigin(width, height, e.curTileX0, e.curTileY0, …)`, i.e. the canvas split of the tile -/
+def encLowLen (len x0 : Int) (n : Nat) : Int := (resDims len x0 n).1
+
+/-- the shape before fix 104b234 (kept for the regression example): `ceildivpow2(width, level+1)`, tile origin unused -/
+def encLowLenOld (len : Int) (n : Nat) : Int := ceilDivPow2 len n
 
 /-! ### planes as index functions; Go `copy(dst[a:a+w], src[b:b+w])` -/
 
@@ -109,10 +113,18 @@ def decCbIndex (resX0 cbX0 pw cbw : Int) : Int × Int :=
   let localX := absResX0 - (startX + px * pw)
   (px, Int.tdiv localX cbw)
 
-/-- encoder.go buildTilePacketEncoder for the same block: the encoder works in tile-local coordinates
-    (toResolutionCoordinates subtracts the band offset, the tile origin never enters):
-    `px := resX0 / precinctWidth; localX := resX0 - px*precinctWidth; CBX = localX / CodeBlockWidth` with resX0 = cbX0 -/
-def encCbIndex (cbX0 pw cbw : Int) : Int × Int :=
+/-- encoder.go buildTilePacketEncoder (since fix 104b234) for the same block: precinct index and grid position
+    from the canvas origin `originX` of the tile-component at this resolution:
+    `startX := (originX/pw)*pw; absX := originX + resX0; px := (absX-startX)/pw; localX := absX-(startX+px*pw); CBX = localX/cbw` -/
+def encCbIndex (originX cbX0 pw cbw : Int) : Int × Int :=
+  let startX := Int.tdiv originX pw * pw
+  let absX := originX + cbX0
+  let px := Int.tdiv (absX - startX) pw
+  let localX := absX - (startX + px * pw)
+  (px, Int.tdiv localX cbw)
+
+/-- the shape before fix 104b234 (kept for the regression example): tile-local, the origin never entered -/
+def encCbIndexOld (cbX0 pw cbw : Int) : Int × Int :=
   let px := Int.tdiv cbX0 pw
   let localX := cbX0 - px * pw
   (px, Int.tdiv localX cbw)
@@ -127,4 +139,27 @@ def splitAssembleWith (codec : Nat → Plane → Plane) (src : Plane) (W H TW TH
     let r := tileRectNat W H TW TH k
     let tile := codec k (splitTile src W r.1 r.2.1 r.2.2.1 r.2.2.2 (fun _ => 0))
     assembleTile tile W r.1 r.2.1 r.2.2.1 r.2.2.2 out
+end J2k
+
+namespace J2k
+/-- encoder.go partitionIntoCodeBlocks, rectangle of code-block (cbx, cby) inside a sub-band of size bw×bh:
+    `x0 := cbx*cbWidth; x1 := x0+cbWidth; if x1 > subband.width { x1 = subband.width }` (same in y) -/
+def encCbRect (bw bh cbw cbh cbx cby : Int) : Int × Int × Int × Int :=
+  let x0 := cbx * cbw
+  let y0 := cby * cbh
+  let x1 := x0 + cbw
+  let y1 := y0 + cbh
+  (x0, y0, (if x1 > bw then bw else x1), (if y1 > bh then bh else y1))
+
+/-- t2/tile_decoder.go buildAndDecodeCodeBlocks (and packet_decoder.go collectCodeBlockEntries: cbX0 = cbx*cbw):
+    `localX0 := cbx*cbWidth; localX1 := localX0+cbWidth; if localX1 > bandInfo.width { localX1 = bandInfo.width }` -/
+def decCbRect (bw bh cbw cbh cbx cby : Int) : Int × Int × Int × Int :=
+  let localX0 := cbx * cbw
+  let localY0 := cby * cbh
+  let localX1 := localX0 + cbw
+  let localY1 := localY0 + cbh
+  (localX0, localY0, (if localX1 > bw then bw else localX1), (if localY1 > bh then bh else localY1))
+
+/-- `numCBX := (width + cbWidth - 1) / cbWidth` on both sides -/
+def numCb (n c : Int) : Int := Int.tdiv (n + c - 1) c
 end J2k
